@@ -40,7 +40,11 @@ def literal_of(pattern, flags=re.VERBOSE):
     except Exception:
         return None
     out = []
-    for op, av in tree:
+    items = list(tree)
+    # a trailing look-ahead does not change the matched text
+    while items and items[-1][0] in (sre_c.ASSERT, sre_c.ASSERT_NOT):
+        items.pop()
+    for op, av in items:
         if op is sre_c.LITERAL:
             out.append(chr(av))
         else:
